@@ -14,11 +14,11 @@ from .. import custom, gen, model as M, oracles as O, refmodel as R
 from ..runner import Skip
 
 RULE = ("cases from rng(seed, 16, 0, i): 4 of 5 cases evaluate BaseEdge.calc_jacobians on one custom edge (7 error families x pose types r2/r3/se2/se3, poses with |t| up to 1e3, "
-        "generic rotations) and on built-in odometry/landmark edges; 1 of 5 optimizes a cluster graph whose custom edges use numerical Jacobians and its AD twin "
+        "generic rotations, a fifth of them with a bit-exactly zero residual) and on built-in odometry/landmark edges; 1 of 5 optimizes a cluster graph whose custom edges use numerical Jacobians and its AD twin "
         "(tol=1e-12, max_iter=50) inside the C05 neighbourhood. distinct = fingerprint of the edge operands / spec; non-trivial = Jacobian with a non-zero rotational block "
         "or twin graphs that moved by > 1e-6.")
 REQ = ["eval:numerical-jacobian-accuracy", "eval:twin-optimum-agrees", "eval:twin-chi2-agrees"] + ["family:" + n for n in custom.TYPES] + ["family:builtin-odometry", "family:builtin-landmark",
-                                                                                                                          "class:ternary", "class:unary", "kind:se3", "kind:se2"]
+                                                                                                                          "class:ternary", "class:unary", "kind:se3", "kind:se2", "class:exactly_zero_residual"]
 PLAN = {
     "quick": {"cases": 2500, "soft_s": 80, "min_nontrivial": 600, "require": REQ},
     "thorough": {"cases": 120000, "soft_s": 1400, "min_nontrivial": 30000, "require": REQ},
@@ -116,6 +116,16 @@ def jacobian_check(ctx, e, fam, case):
         FDs = FD * sig[:, None]
         bound = 1.5 * np.abs(FDs - Jt) + 64 * (R.EPS / H) * (float(np.abs(ref_err).max()) + s)
         diff = np.abs(J - Jt)
+        rr = M.rot_rows(e)
+        if rr and float(np.abs(ref_err[rr]).max()) < 1e-9 and float(np.abs(real_err[rr]).max()) < 1e-9 and not np.all(diff <= bound):
+            # vanishing rotational error: its value cannot tell the sign relation between the error quaternion of the real operators and the
+            # Hamilton one of the reference (q and -q are the same rotation) - accept the derivative under either sign
+            alt = sig.copy()
+            alt[rr] = -alt[rr]
+            if np.all(np.abs(J - Jtrue[i] * alt[:, None]) <= bound):
+                Jt, FDs = Jtrue[i] * alt[:, None], FD * alt[:, None]
+                diff = np.abs(J - Jt)
+                ctx.count("sign_relation_undetermined_by_zero_rotational_error")
         with np.errstate(all="ignore"):
             ctx.margin("numerical-jacobian-accuracy", float((diff / bound).max()))
         ctx.check("numerical-jacobian-accuracy", bool(np.all(diff <= bound)), {"family": fam, "kind": k, "vertex": i, "n_vertices": len(ks)},
@@ -135,6 +145,19 @@ def direct_case(ctx, i, rng):
         ps = [M.fl(v.pose) for v in e.vertices]
     else:
         e, spec, ps, kinds = make_custom_edge(rng, fam, k, scale)
+        if rng.random() < 0.2:
+            # a measurement that agrees bit-exactly with the current poses: the residual is exactly zero at the linearisation point,
+            # its derivative is not (dead-reckoned initial guesses produce this)
+            with np.errstate(all="ignore"):
+                if fam == "prior":
+                    e.estimate = e.vertices[0].pose.copy()
+                    spec = dict(spec, est=M.fl(e.estimate))
+                elif fam != "relpose":
+                    err0 = np.atleast_1d(np.asarray(e.calc_error(), dtype=float))
+                    e.estimate = float(e.estimate + err0[0]) if np.ndim(e.estimate) == 0 else np.asarray(e.estimate, dtype=float) + err0
+                    spec = dict(spec, est=M.fl(e.estimate))
+                if not np.any(np.atleast_1d(e.calc_error())):
+                    ctx.count("class:exactly_zero_residual")
     case = {"family": fam, "kind": k, "edge": spec, "poses": ps}
     jacobian_check(ctx, e, fam, case)
     ctx.count("family:" + fam)
@@ -183,7 +206,19 @@ def twin_case(ctx, i, rng):
     ctx.margin("twin-optimum-agrees", worst / 1e-4)
     ctx.check("twin-optimum-agrees", worst <= 1e-4, {"families": "+".join(fams)}, {"worst": worst, "iterations": [r1.num_iterations, r2.num_iterations], "chi2": [r1.final_chi2, r2.final_chi2]}, case)
     c1, c2 = r1.final_chi2, r2.final_chi2
-    ctx.check("twin-chi2-agrees", c1 is not None and abs(c1 - c2) <= 1e-9 * max(abs(c2), 1e-12) + 1e-18, {"families": "+".join(fams)}, {"chi2": [c1, c2]}, case)
+    # chi2 is stationary at the optimum: chi2(x* + d) = chi2* + d^T H d + o(|d|^2) with H = sum J^T Omega J, so the two final chi2 values may differ
+    # by the second-order term of the (separately bounded) pose difference d, measured here with the reference Hessian
+    quad = 0.0
+    if worst < math.inf:
+        H, b, chi_ref, idx, nn = M.assemble(gt, "ref")
+        d = np.zeros(nn)
+        for v, w in zip(g._vertices, gt._vertices):
+            kk = M.kind(w.pose)
+            inc = M.applied_increment(kk, M.fl(w.pose), M.fl(v.pose))
+            d[idx[id(w)]: idx[id(w)] + R.CD[kk]] = inc
+        quad = float(d @ H @ d) + 2.0 * abs(float(b @ d))
+    ctx.check("twin-chi2-agrees", c1 is not None and abs(c1 - c2) <= 4.0 * quad + 1e-9 * max(abs(c2), 1e-12) + 1e-18, {"families": "+".join(fams)},
+              {"chi2": [c1, c2], "second_order_term": quad}, case)
     if moved > 1e-6:
         ctx.nontrivial(gen.fingerprint(spec))
     ctx.sample({"twin_graph": True, "custom_edges": fams, "n_vertices": len(spec["vertices"]), "chi2": [c1, c2], "worst_pose_difference": worst}, cap=2)
